@@ -49,6 +49,14 @@ def exercise(ctx, st, s, h, w, supplied=False):
             ctx.violation(f"frame:{tag}-raises:{type(e).__name__}", f"{tag}{a} raised {e!r}", {"frame": [h, w], "args": [repr(x) for x in a]})
         ctx.case([h, w, supplied, tag, [repr(x) for x in a]], nontrivial=True)
 
+    def must(tag, f, *a):
+        """a call on a valid frame: any exception is a violation"""
+        try:
+            return f(*a)
+        except Exception as e:
+            ctx.violation(f"frame:{tag}-raises:{type(e).__name__}", f"{tag} on a valid {h}x{w} frame raised {e!r}", {"frame": [h, w]})
+            return None
+
     for Y in range(-3, 2 * h + 4):
         for X in range(-3, 2 * w + 4):
             call("getitem", fr.__getitem__, (Y, X))
@@ -58,18 +66,21 @@ def exercise(ctx, st, s, h, w, supplied=False):
             call("cell_neighbors", fr.cell_neighbors, (y, x))
             call("vertex_neighbors", fr.vertex_neighbors, y, x)
             call("vertex_neighbors", fr.vertex_neighbors, (y, x))
-    call("all_edges", fr.all_edges)
-    call("iter", lambda: list(fr))
-    d = fr.dual()
-    call("inner-iter", lambda: list(d))
-    d.dual()
-    graph._from_grid_frame(fr)
+    must("all_edges", fr.all_edges)
+    must("iter", lambda: list(fr))
+    d = must("dual", fr.dual)
+    if d is not None:
+        must("inner-iter", lambda: list(d))
+        must("inner-dual", d.dual)
+    must("inferred-graph", graph._from_grid_frame, fr)
+    for tag in ("all_edges", "iter", "dual", "inferred-graph"):
+        ctx.case([h, w, supplied, tag], nontrivial=True)
     # an inner frame created on its own (cells h+1 x w+1), its dual and the graph inferred from it (as the borders constraint does)
     inner = BoolInnerGridFrame(s, h + 1, w + 1)
     if inner.horizontal.shape != (h, w + 1) or inner.vertical.shape != (h + 1, w):
         ctx.violation("frame:inner-array-shapes", f"inner horizontal {inner.horizontal.shape} / vertical {inner.vertical.shape}", {"inner": [h + 1, w + 1]})
     else:
-        graph._from_grid_frame(inner.dual())
+        must("inferred-graph", lambda: graph._from_grid_frame(inner.dual()))
         ctx.case([h, w, "inner"], nontrivial=True)
 
 
@@ -91,13 +102,14 @@ def run(ctx):
         for h, w in [(1, 1), (2, 3), (3, 2), (0, 2)]:
             s2 = cspuz.Solver()
             fr = BoolGridFrame(s2, h, w)
-            graph.active_edges_single_cycle(s2, fr)
-            fr.single_loop()
-            graph.active_edges_connected_crossable(s2, fr)
-            from cspuz.array import IntArray2D
-
-            inner = BoolInnerGridFrame(s2, h + 1, w + 1)
-            graph.division_connected_variable_groups_with_borders(s2, group_size=s2.int_array((h + 1, w + 1), 1, 4), is_border=inner)
+            try:
+                graph.active_edges_single_cycle(s2, fr)
+                fr.single_loop()
+                graph.active_edges_connected_crossable(s2, fr)
+                inner = BoolInnerGridFrame(s2, h + 1, w + 1)
+                graph.division_connected_variable_groups_with_borders(s2, group_size=s2.int_array((h + 1, w + 1), 1, 4), is_border=inner)
+            except Exception as e:
+                ctx.violation(f"frame:loop-constraint-raises:{type(e).__name__}", f"a loop constraint on a {h}x{w} frame raised {e!r}", {"frame": [h, w]})
             ctx.count("c14.loop_constraint_frames")
             ctx.case(["loop-constraints", h, w], nontrivial=True)
     ctx.sample({"frame": [2, 3], "item": [1, 4], "geometry": "vertical segment (0,2)-(1,2)"})
